@@ -7,7 +7,7 @@ VERIF = build.VERIF
 EVID = os.path.join(VERIF, "evidence")
 REPLAYS = os.path.join(VERIF, "replays")
 KF_PATH = os.path.join(VERIF, "KNOWN_FINDINGS.json")
-PROPS_JSON = os.path.join(VERIF, "lean", "props.json")
+PROPS_DIR = os.path.join(VERIF, "lean", "props")
 
 def load_findings():
     try:
@@ -39,7 +39,7 @@ class Ctx:
     # ------------------------------------------------------------ L leg
     def lean(self, extra_targets=()):
         """Build the property's Lean closure + the driver, audit its theorems."""
-        info = json.load(open(PROPS_JSON))[self.prop]
+        info = json.load(open(os.path.join(PROPS_DIR, self.prop + ".json")))
         module = info["module"]
         theorems = info["theorems"]
         self.cov["obligations"] = len(theorems)
